@@ -28,6 +28,20 @@ pub struct CodeCache {
   epilogue_location: usize,
 }
 
+/// Verification hook (cfg(gb_dynarec_verif) only): a cache without executable memory
+#[cfg(gb_dynarec_verif)]
+impl CodeCache {
+  pub fn verif_empty() -> Self {
+    Self {
+      exec_memory: ExecutableMemory::verif_none(),
+      code_blocks: CachedBlocks::new(),
+      write_cursor: 0,
+      prologue_location: 0,
+      epilogue_location: 0,
+    }
+  }
+}
+
 impl CodeCache {
   pub fn new() -> Self {
     let mut cache = Self {
